@@ -25,9 +25,10 @@ func init() {
 			}
 			return 160
 		},
-		Run:        runC05,
-		Exhaustive: false,
-		Required:   []string{"faults_injected", "messages_reported_complete", "partial_messages_refused"},
+		Run:          runC05,
+		BeatTimeoutS: 60,
+		Exhaustive:   false,
+		Required:     []string{"faults_injected", "messages_reported_complete", "partial_messages_refused", "streams_read_through_joinmessages"},
 		Assumptions: []string{
 			"exhaustive over cut offsets x fault kinds for each generated stream; streams, chunkings and read programs are sampled",
 			"after a read error delivered together with data, a message completed by that data may or may not be reported complete (lower <= j <= upper)",
@@ -63,7 +64,7 @@ func runC05(ctx *core.Ctx, out *core.Out) {
 	for cut := 0; cut <= len(st.Bytes); cut++ {
 		for kind := 0; kind < len(faultNames); kind++ {
 			for k := 0; k < 2; k++ {
-				ex := rdExec{RB: r.BufSize(), Chunk: r.Intn(xport.NChunkStyles + 2), Mode: r.Intn(2), Server: fromClient, Comp: comp}
+				ex := rdExec{RB: r.BufSize(), Chunk: r.Intn(xport.NChunkStyles + 2), Mode: r.Intn(3), Server: fromClient, Comp: comp}
 				if ex.Chunk > xport.NChunkStyles {
 					ex.Chunk = xport.NChunkStyles // frame-aligned, twice as likely
 				}
@@ -170,7 +171,58 @@ func c05Exec(out *core.Out, st *Stream, exp []Ev, ends []int, cut, kind int, ex 
 	}
 	j := 0
 	var termErr error
-	for {
+	if ex.Mode == 2 {
+		// the whole stream through JoinMessages: complete messages each followed by the
+		// terminator, possibly the beginning of one more message, then an error that is
+		// not io.EOF (a clean end is exactly the silent truncation the property forbids)
+		const term = "\x00\x01<END>\x02"
+		jr := ws.JoinMessages(c, term)
+		var all []byte
+		buf := make([]byte, r.Range(1, 600))
+		var jerr error
+		for spins := 0; ; spins++ {
+			n, e := jr.Read(buf)
+			all = append(all, buf[:n]...)
+			if e != nil {
+				jerr = e
+				break
+			}
+			if spins > 1<<20 {
+				return fail("join-no-error", "the JoinMessages reader never reported an error")
+			}
+		}
+		out.Count("streams_read_through_joinmessages", 1)
+		pos := 0
+		for j < len(exp) && bytes.HasPrefix(all[pos:], append(append([]byte(nil), exp[j].Data...), term...)) {
+			pos += len(exp[j].Data) + len(term)
+			j++
+		}
+		rest := all[pos:]
+		if j > upper && !(j == upper+1 && exp[j-1].BFinal) {
+			return fail("partial-message-reported-complete", fmt.Sprintf("JoinMessages delivered message %d with its terminator although only %d bytes of the stream arrived and it ends at offset %d", j-1, cut, endOr(ends, j-1)))
+		}
+		if j > upper {
+			out.Count("complete_by_deflate_bfinal_before_last_frame_bytes", 1)
+			upper = j
+		}
+		if j == len(exp) && len(rest) > 0 {
+			return fail("extra-message", "JoinMessages delivered bytes beyond the messages the stream holds")
+		}
+		if j < len(exp) && !ex.Comp && !bytes.HasPrefix(append(append([]byte(nil), exp[j].Data...), term...), rest) {
+			return fail("partial-message-garbage", fmt.Sprintf("after %d complete messages JoinMessages delivered %d bytes that are not a prefix of the next message", j, len(rest)))
+		}
+		if j < len(exp) && !ex.Comp && len(rest) > len(exp[j].Data) {
+			return fail("partial-message-reported-complete", fmt.Sprintf("JoinMessages started the terminator of message %d which had not arrived completely", j))
+		}
+		// io.EOF is a legitimate end when the transport ended between messages; it is the
+		// forbidden silent truncation when bytes of a further message had arrived
+		if jerr == io.EOF && j < len(exp) && st.FrameOff[exp[j].First] < cut {
+			return fail("join-reports-clean-end-after-transport-fault", fmt.Sprintf("the JoinMessages reader ended with io.EOF after %d complete messages although %d bytes of message %d had arrived when the transport failed (%s)", j, cut-st.FrameOff[exp[j].First], j, faultNames[kind]))
+		}
+		out.Count("messages_reported_complete", int64(j))
+		termErr = jerr
+	}
+	for ex.Mode != 2 {
 		if j > len(exp) {
 			return fail("extra-message", "more messages reported than the stream holds")
 		}
@@ -203,6 +255,10 @@ func c05Exec(out *core.Out, st *Stream, exp []Ev, ends []int, cut, kind int, ex 
 				}
 				if e != nil {
 					err = e
+					// the same reader tried again: still an error, never a clean end
+					if n2, e2 := nr.Read(buf); n2 != 0 || e2 == nil || e2 == io.EOF {
+						return fail("partial-message-eof", fmt.Sprintf("after failing with %v the reader of partial message %d returned (%d,%v) on the next Read", e, j, n2, e2))
+					}
 					break
 				}
 			}
